@@ -1,17 +1,22 @@
 """Per-property check definitions."""
-from .common import Check, Job, RJSON, FP
+from .common import Check, Job, RJSON, FP, prefix_splits
 
 BUFMODES_QUICK = [0, 1, 2, 4]          # nil, fresh, used len 0, used len 2
 BUFMODES_THOROUGH = [0, 1, 2, 3, 4, 14]  # ... used len 1, len 12 (> any depth reachable at these N)
 
 
-def _machine_jobs(c, harness, N, modes, sym='d'):
+def _machine_jobs(c, harness, N, modes, sym='d', split_from=8):
     for n in range(0, N + 1):
         for m in modes:
-            # all buffer modes at the smaller lengths, nil + one dirty buffer at the largest
-            if n == N and m not in (modes[0], modes[-1]):
+            # all buffer modes at the smaller lengths, nil + one dirty buffer at the largest two
+            if n >= N - 1 and n > 4 and m not in (modes[0], modes[-1]):
                 continue
-            c.add(Job(harness, [('bytes', sym, n), ('int', m)], weight=3 ** n))
+            if n >= split_from:
+                k = 2 if n < split_from + 2 else 3
+                for pre in prefix_splits(k):
+                    c.add(Job(harness, [('bytes', sym, n, pre), ('int', m)], weight=3 ** n))
+            else:
+                c.add(Job(harness, [('bytes', sym, n), ('int', m)], weight=3 ** n))
 
 
 def check_C01(tier, nproc=None):
@@ -69,6 +74,93 @@ def check_C13(tier, nproc=None):
     c.must_reach = ['C13.eof', 'C13.token', 'C13.readnull']
     c.assumptions = ['reference token table / literal matcher in harness/zz_verif_ref.go', 'amd64']
     c.outside = ['inputs longer than N bytes (whitespace prefixes longer than N)']
+    c.run_jobs(nproc)
+    c.confirm()
+    return c.finish()
+
+
+def _std(c, extra_assume=()):
+    c.assumptions = ['reference models in harness/zz_verif_ref.go (validated natively against encoding/json, strconv, unicode/utf8)',
+                     'go/ssa lowering + gosym encoder model the compiled code (validated by native replay of sampled path classes)',
+                     'amd64: int is 64 bit'] + list(extra_assume)
+
+
+def check_C07(tier, nproc=None):
+    c = Check('C07', tier)
+    N = 7 if tier == 'quick' else 10
+    for n in range(0, N + 1):
+        for obj in (False, True):
+            if n >= 8:
+                for pre in prefix_splits(2 if n < 10 else 3):
+                    c.add(Job('vH_C07', [('bytes', 'd', n, pre), ('bool', obj)], weight=3 ** n))
+            else:
+                c.add(Job('vH_C07', [('bytes', 'd', n), ('bool', obj)], weight=3 ** n))
+    c.bounds = {'N': N, 'handler': 'every per-call mix of "return 0" and "return exact end offset" (one nondeterministic boolean per call)'}
+    c.must_reach = ['C07.returned', 'C07.success']
+    _std(c)
+    c.outside = ['inputs longer than N bytes', 'more than 8 members', 'nesting beyond N']
+    c.run_jobs(nproc)
+    c.confirm()
+    return c.finish()
+
+
+def check_C09(tier, nproc=None):
+    c = Check('C09', tier)
+    N = 6 if tier == 'quick' else 9
+    K = 3 if tier == 'quick' else 4
+    for n in range(0, N + 1):
+        for obj in (False, True):
+            for k in range(K):
+                c.add(Job('vH_C09', [('bytes', 'd', n), ('bool', obj), ('int', k)], weight=3 ** n))
+    c.bounds = {'N': N, 'failing_call_index': list(range(K)), 'offset_with_error': 'free 64-bit value'}
+    c.must_reach = ['C09.failed-call-made']
+    _std(c, ['before the failing call the handler is well-behaved (0 or exact end)'])
+    c.outside = ['inputs longer than N bytes', 'failing call index >= %d' % K]
+    c.run_jobs(nproc)
+    c.confirm()
+    return c.finish()
+
+
+def check_C10(tier, nproc=None):
+    c = Check('C10', tier)
+    N = 5 if tier == 'quick' else 7
+    NS = 6 if tier == 'quick' else 8
+    for n in range(0, N + 1):
+        for obj in (False, True):
+            for m in ([0, 4] if tier == 'quick' else [0, 1, 2, 4]):
+                c.add(Job('vH_C10_handler', [('bytes', 'd', n), ('bool', obj), ('int', m)], weight=4 ** n))
+    for n in range(0, NS + 1):
+        for m in ([0, 4] if tier == 'quick' else [0, 1, 2, 3, 4]):
+            c.add(Job('vH_C10_scalars', [('bytes', 'd', n), ('int', m)], weight=3 ** n))
+        for spare in ([0, 3] if tier == 'quick' else [0, 1, 3, 4, n + 4]):
+            c.add(Job('vH_C10_strings', [('bytes', 'd', n), ('int', spare)], weight=2 ** n))
+    c.bounds = {'N_handlers': N, 'N_entry_points': NS, 'handler_offsets': 'free 64-bit value at every call'}
+    c.must_reach = ['C10.handler-returned', 'C10.scalars-done', 'C10.strings-done']
+    _std(c, ['every implicit Go runtime check (index, slice bounds, nil dereference, type assertion, division, make size) is an assertion of the encoding'])
+    c.outside = ['inputs longer than the bounds', 'goroutine stack exhaustion', 'non-termination inside the Go runtime']
+    c.run_jobs(nproc)
+    c.confirm()
+    return c.finish()
+
+
+def check_C14(tier, nproc=None):
+    c = Check('C14', tier)
+    N = 6 if tier == 'quick' else 8
+    NR = 5 if tier == 'quick' else 7
+    modes = [1, 2, 4] if tier == 'quick' else [1, 2, 3, 4, 12]
+    for n in range(0, N + 1):
+        for fn in range(5):
+            for m in modes:
+                c.add(Job('vH_C14', [('bytes', 'd', n), ('int', fn), ('int', m)], weight=3 ** n))
+    for n in range(0, NR + 1):
+        for outer in (0, 1):
+            for inner in range(5):
+                for m in ([1, 4] if tier == 'quick' else [1, 2, 4]):
+                    c.add(Job('vH_C14_reentrant', [('bytes', 'd', n), ('int', outer), ('int', inner), ('int', m)], weight=3 ** n))
+    c.bounds = {'N': N, 'N_reentrant': NR, 'buffer_states': 'fresh, or a used stack of length 0/1/2/10 with arbitrary contents'}
+    c.must_reach = ['C14.compared', 'C14.reentrant-compared']
+    _std(c, ['any history of calls leaves the Buffer as *some* []int; an arbitrary slice therefore covers every history (trivial induction)'])
+    c.outside = ['inputs longer than N', 'stack slices longer than 10 words (the machine only reads stack[j] it wrote in the same call)']
     c.run_jobs(nproc)
     c.confirm()
     return c.finish()
